@@ -321,8 +321,10 @@ pub fn c10_mintable_exact() {
 /// invariant mints <= cap and premine + cap * amount <= u128::MAX (what Etching::supply checks at
 /// etching time, C25) - so the conserved quantity of C08 is always representable.
 //# props: C08
-//# kind: complete (every entry satisfying the invariant; loop-free)
+//# tier: manual
+//# kind: bounded(cap and mints below 2^16, premine and amount over all of u128: a symbolic 128x128 multiplication did not finish in 15 min)
 //# fns: index::entry::RuneEntry::supply, index::entry::RuneEntry::max_supply
+//# timeout: 900
 #[cfg_attr(kani, kani::proof)]
 #[cfg_attr(kani, kani::unwind(2))]
 pub fn c08_supply_representable() {
@@ -331,6 +333,7 @@ pub fn c08_supply_representable() {
   e.mints = kani::any();
   let cap: u128 = kani::any();
   let amount: u128 = kani::any();
+  kani::assume(cap < (1 << 16));
   e.terms = Some(Terms { cap: Some(cap), amount: Some(amount), height: (None, None), offset: (None, None) });
   // invariant: the etching's total supply did not overflow, and mints never exceeds the cap (C10)
   let max = match cap.checked_mul(amount) { Some(m) => e.premine.checked_add(m), None => None };
